@@ -33,7 +33,7 @@ from mc.ref import confidence as R
 
 ID = "C12"
 LEVEL = "exploration"
-BUDGET = {"quick": 300, "thorough": 900}
+BUDGET = {"quick": 300, "thorough": 3600}
 CHUNK = 4
 RULE = (
     "cases = (packed) alphabet x number of disparities x measure type x layout x every step parameter set; "
